@@ -96,6 +96,39 @@ def _run_case(ctx, case):
             ctx.judge(False, case, mech=mech, expected=want, got=repr(ex), nontrivial=nontrivial)
             return
         ctx.judge(got == want, case, mech=mech, expected=want, got=got, nontrivial=nontrivial)
+    elif op == "slice-after-interrupted-slice":
+        # another range is cut; then the cutting of [a, b) is interrupted (Ctrl-C) at its k-th
+        # statement, for every k; then [a, b) is asked for again: same answer as ever
+        a, b = case["a"], case["b"]
+        E = cols.expected_slice(F, a, b)
+        for k_ in range(1, 80):
+            g = obs.build(spec)
+            try:
+                g.width_aware_slice(slice(*case["other"]))
+                if not obs.interrupted_call(lambda: g.width_aware_slice(slice(a, b)), k_):
+                    break
+                got = obs.cells(g.width_aware_slice(slice(a, b)))
+            except Exception as ex:  # noqa
+                ctx.judge(False, case, mech="C10:slice-after-interrupted-slice", got=repr(ex), detail={"interrupted at statement": k_})
+                return
+            _, G = cols.group(got)
+            if [x[0] for x in G] != [e[0] for e in E]:
+                ctx.judge(False, case, mech="C10:slice-after-interrupted-slice", expected=obs.show([e[0] for e in E]),
+                          got=obs.show(got), detail={"interrupted at statement": k_})
+                return
+            ctx.count("slices_interrupted_at_a_statement")
+        ctx.judge(True, case, nontrivial=nontrivial)
+    elif op == "wrapped-widths":
+        # the lines width_aware_splitlines hands out are FmtStrs like any other: their .width is
+        # the number of columns their cells take (padding spaces included)
+        try:
+            lines = list(f.width_aware_splitlines(case["columns"]))
+            got = [l.width for l in lines]
+            want = [cols.width(obs.cells(l)) for l in lines]
+        except Exception as ex:  # noqa
+            ctx.judge(False, case, mech="C10:width-of-wrapped-line", got=repr(ex))
+            return
+        ctx.judge(got == want, case, mech="C10:width-of-wrapped-line", expected=want, got=got, nontrivial=nontrivial)
     elif op == "sequence":
         W = cols.width(F)
         for a, b in case["slices"]:
@@ -161,11 +194,16 @@ def all_ops(ctx, spec):
     F = obs.spec_cells(spec)
     W = cols.width(F)
     run_case(ctx, {"op": "width", "spec": spec})
+    if W >= 2:
+        run_case(ctx, {"op": "wrapped-widths", "spec": spec, "columns": 2 + (W % 3)})
     for n in range(0, len(F) + 2):
         run_case(ctx, {"op": "offset", "spec": spec, "n": n})
     for a in range(0, W + 3):
         for b in range(a, W + 3):
             run_case(ctx, {"op": "slice", "spec": spec, "a": a, "b": b})
+            if W >= 2 and (a * 7 + b * 3 + len(F)) % 41 == 0:
+                run_case(ctx, {"op": "slice-after-interrupted-slice", "spec": spec, "a": a, "b": b,
+                               "other": [max(0, a - 1), min(W, b + 1)]})
 
 
 def run(ctx):
